@@ -1081,6 +1081,14 @@ macro_rules! rel_quat {
                     }
                 }
             }
+            // exactly opposite vectors that are unit only to a few ulp (|a|^2 = 1 -+ 6 epsilon, as q * X is): the half-turn branch must not
+            // depend on 1 + a.b crossing a threshold that the rounding of |a|^2 moves (every draw, both sides)
+            for sc in [1.0 - 3.0 * <$S>::EPSILON, 1.0 + 3.0 * <$S>::EPSILON] {
+                let ua = axis * sc;
+                let ub = -ua;
+                let wv3 = |v: &$V3| -> Value { Value::Array(v.to_array().iter().map(|x| w(*x)).collect()) };
+                $o.emit(json!({"k": "rel", "op": "arc", "f": $fm, "ty": ty, "sp": "from_rotation_arc (opposite, unit to a few ulp)", "colinear": 0, "a": wv3(&ua), "b": wv3(&ub), "q": wq(&$Q::from_rotation_arc(ua, ub))}));
+            }
             // the angle between a rotation and itself / its negative is zero; rotating towards beyond the remaining angle reaches the target
             $o.emit(json!({"k": "rel", "op": "angle_parallel", "f": $fm, "ty": ty, "quat": 1, "a": wq(&q0), "b": wq(&q0), "got": w(q0.angle_between(q0))}));
             $o.emit(json!({"k": "rel", "op": "angle_parallel", "f": $fm, "ty": ty, "quat": 1, "sp": "q, -q", "a": wq(&q0), "b": wq(&q0), "got": w(q0.angle_between(-q0))}));
